@@ -179,7 +179,7 @@ def run(ctx):
             if i % 4 == 0:
                 deferred_consumption(res, rng)
         # large dumps: many records in many chunks, hundreds of thread-map entries and log records
-        for m in ctx.pick((2000,), (70000, 3000)):
+        for m in ctx.pick((5000,), (70000, 3000, 140000)):
             recs = gen.gen_records(rng, m, first_nonzero=False)
             f = gen.gen_v3(rng, n=300, chunks=gen.split_chunks(rng, recs, rng.choice((1, 7, 40))))
             f['records'] = recs
